@@ -514,6 +514,11 @@ class Executor:
             else:
                 frame[n] = Agg(self.cur_func.locals.get(n, "?"), None, {k: val})
             return
+        if len(steps) >= 3 and steps[1][0] == "deref" and isinstance(frame.get(n), Opaque):
+            # initialisation of freshly allocated heap memory behind an opaque pointer (`vec![..]`, `Box::new`):
+            # the pointee is never read back by value here; reads through it yield fresh (unconstrained) values
+            st.events.append(Event("store-opaque", [frame.get(n), val], None, len(st.pc)))
+            return
         raise Unsupported("assignment to place " + s)
 
     def const(self, text, dest_ty=None):
